@@ -216,6 +216,14 @@ def _queries(rec, kc):
     others = [bspline.KnotVector(kvarr.copy(), p + 1), bspline.KnotVector(kvarr[1:-1].copy(), max(p - 1, 0)),
               bspline.KnotVector(kvarr * (1 + 1e-8 * rng.uniform(0.2, 3.0)) + 1e-8 * rng.uniform(0.2, 3.0), p),
               bspline.KnotVector(kvarr + np.concatenate((np.zeros(len(kvarr) - p - 1), np.full(p + 1, 1e-8 * rng.uniform(0.5, 2.5) * (1 + abs(kvarr[-1]))))), p)]
+    # pairs at the edge of the comparison tolerance (a knot moved by just over the absolute tolerance, where a one-sided relative
+    # tolerance would accept the pair in one order only); the oracle is symmetry itself, the construction only aims the workload
+    for j in (0, len(kvarr) - 1):
+        a_ = float(kvarr[j]); d0 = (1e-8 + 1e-8 * abs(a_))
+        for fac in (1 + 0.5e-8, 1 + 0.25e-8, 1 - 0.5e-8):
+            kb = kvarr.copy(); sel = (kvarr == a_); kb[sel] = a_ + (d0 * fac if j else -d0 * fac)
+            others.append(bspline.KnotVector(kb, p))
+    rec.count('oracle:eq_borderline', 6)
     for o in others:
         if (kv == o) != (o == kv):
             bad('== symmetric', a=kvarr.tolist(), b=o.kv.tolist(), ab=bool(kv == o), ba=bool(o == kv))
